@@ -156,7 +156,28 @@ def build_harness():
                      cwd=h, env=GOENV)
         if rc == 0:
             os.replace(os.path.join(BUILD, "harness.new"), os.path.join(BUILD, "harness"))
+        # optional extra builds of the same harness with more build tags, requested by a property through
+        # "harness_variants": [{"name": "faketime", "tags": "verif faketime"}] in lib/props.d/<ID>.json;
+        # the binary is build/harness.<name> (started by that property's Run as a child process)
+        for name, tags in sorted(harness_variants().items()):
+            if rc != 0:
+                break
+            tmp = os.path.join(BUILD, "harness.%s.new" % name)
+            rc, out = sh(["timeout", "1800", "go", "build", "-tags", tags, "-o", tmp, "."], cwd=h, env=GOENV)
+            if rc == 0:
+                os.replace(tmp, os.path.join(BUILD, "harness.%s" % name))
     return rc, out
+
+
+def harness_variants():
+    vs = {}
+    for f in sorted(glob.glob(os.path.join(VERIF, "lib", "props.d", "C*.json"))):
+        try:
+            for v in json.load(open(f)).get("harness_variants", []):
+                vs[v["name"]] = v["tags"]
+        except (ValueError, KeyError, TypeError):
+            pass
+    return vs
 
 
 def bytes_lit(s):
@@ -337,7 +358,10 @@ def main(argv):
     # kernel-evaluated sample
     nsample = P.get("coq_sample", 200)
     step = max(1, len(cases) // nsample)
-    sample = cases[::step][:nsample]
+    # "coq_sample_maxlen" (optional, per property): very long case lines make coqc overflow its stack while
+    # parsing cases.v; they stay in the extracted-model comparison and are only left out of the kernel sample
+    maxlen = P.get("coq_sample_maxlen", 0)
+    sample = [l for l in cases[::step] if not maxlen or len(l) <= maxlen][:nsample]
     if not mism and coq_ok:
         ok, ns, sout = coq_sample_check(pid, sample, rundir)
         if not ok:
